@@ -18,7 +18,8 @@ def contracts(tier):
     cs = [c for c in c12.contracts(tier) if c.name == 'C12/binary_search']
     for c in cs:
         c.name = 'C03/binary_search'
-    return cs
+    from . import mutsym
+    return cs + mutsym.contracts(tier)
 
 
 def native_checks(tier):
